@@ -182,8 +182,10 @@ class contrast:
         # Case: F contrast
         elif self.type == 'F':
             # F = |t|^2/q ,  |t|^2 = e^t v-1 e
-            t = mahalanobis(self.effect - baseline, np.maximum(
-                    self.variance, self._tiny)) / self.dim
+            # (the covariance matrix must not be floored element-wise:
+            # negative covariances are legitimate)
+            t = mahalanobis(self.effect - baseline,
+                            self.variance) / self.dim
         # Case: tmin (conjunctions)
         elif self.type == 'tmin':
             vdiag = self.variance.reshape([self.dim ** 2] + list(
